@@ -16,6 +16,10 @@ proof  : Props/C18.v over Lib/Mem.v (bytes, little-endian read/write, nine AMOs,
     processed requests one after another"
    "timing parameters change only when responses arrive,      C18_timing_irrelevant, C18_timing_irrelevant_drained, C18_single_port_deterministic,
     never what they contain"                                  C18_cycles_invariant
+drivers: each MagicMemoryCL port is driven by TestSrcCL (fresh object per request), by a CL source that rewrites ONE
+         request object in place after every send, or by an RTL en/rdy master (live req.msg signal) connected with plain
+         `connect` through the stdlib adapters, with back-to-back requests and slow sinks; the judgement is always on the
+         accepted request stream vs responses vs final image (latency 0..5 for CL, extra_latency 0..4 for the stream memory).
 widths : the data width is PER PORT (W : nat -> Z in the pipeline model, `list Z` in check_history; a processed request
          carries its port's width, `wreq`): one memory serving ports with different message types is covered.
 tie    : T-acc/T-diff.  The REAL MagicMemoryCL and stream MagicMemoryRTL are simulated with random request streams
@@ -149,6 +153,67 @@ class Impl:
     from pymtl3.stdlib.stream.SinkRTL import SinkRTL
     s.pymtl3, s.mk_mem_msg, s.FL, s.CL, s.smm = pymtl3, mk_mem_msg, MagicMemoryFL, MagicMemoryCL, smm
     s.TestSrcCL, s.TestSinkCL, s.SourceRTL, s.SinkRTL = TestSrcCL, TestSinkCL, SourceRTL, SinkRTL
+    from pymtl3.stdlib.mem.mem_ifcs import MemMasterIfcRTL
+    from pymtl3 import Component, CallerIfcCL, Wire, Bits16, update, update_ff, update_once
+
+    # -- requesters that do NOT hand over a fresh object per request (both are legal users of the interfaces) --
+    class ReuseSrcCL(Component):
+      """CL source that owns ONE message object for the whole run: it is sent, and immediately rewritten in place
+      with the next pending request (what a requester with a request register does)"""
+      def construct(s, Type, msgs, initial_delay=0, interval_delay=0):
+        s.send = CallerIfcCL(Type=Type)
+        s.todo = [m for m in msgs]
+        s.cur = Type()
+        s.k = 0
+        s.count, s.delay = initial_delay, interval_delay
+        def load():
+          src = s.todo[s.k] if s.k < len(s.todo) else Type()
+          s.cur.type_ @= src.type_; s.cur.opaque @= src.opaque; s.cur.addr @= src.addr
+          s.cur.len @= src.len; s.cur.data @= src.data
+        load()
+        @update_once
+        def up_src_send():
+          if s.count > 0: s.count -= 1
+          elif not s.reset:
+            if s.send.rdy() and s.k < len(s.todo):
+              s.send(s.cur)
+              s.k += 1
+              load()                      # the same object now holds the next pending request
+              s.count = s.delay
+      def done(s): return s.k >= len(s.todo)
+      def line_trace(s): return ''
+
+    class RtlMaster(Component):
+      """RTL en/rdy master (MemMasterIfcRTL) connected to the CL memory with plain `connect` (stdlib adapters).
+      Its next pending request sits on req.msg all the time; req.en only when req.rdy; resp.rdy follows a
+      back-pressure pattern (initial / interval delay, like the test sinks)."""
+      def construct(s, Req, Resp, msgs, src_init, src_intv, sink_init, sink_intv, record):
+        s.mem = MemMasterIfcRTL(Req, Resp)
+        n = len(msgs)
+        s.msgs = list(msgs) + [Req()]
+        s.idx = Wire(Bits16); s.gap = Wire(Bits16); s.hold = Wire(Bits16)
+        @update
+        def up_req():
+          s.mem.req.msg @= s.msgs[s.idx]
+          s.mem.req.en  @= s.mem.req.rdy & (s.idx < n) & (s.gap == 0) & ~s.reset
+        @update
+        def up_resp_rdy():
+          s.mem.resp.rdy @= (s.hold == 0) & ~s.reset
+        @update_ff
+        def up_ff():
+          if s.reset:
+            s.idx <<= 0; s.gap <<= src_init; s.hold <<= sink_init
+          else:
+            if s.mem.req.en:
+              s.idx <<= s.idx + 1; s.gap <<= src_intv
+            elif s.gap > 0:
+              s.gap <<= s.gap - 1
+            if s.mem.resp.en:
+              record(s.mem.resp.msg); s.hold <<= sink_intv
+            elif s.hold > 0:
+              s.hold <<= s.hold - 1
+      def line_trace(s): return ''
+    s.ReuseSrcCL, s.RtlMaster = ReuseSrcCL, RtlMaster
     s.types = {}
     s.obs = None; s.depth = 0
     o_read, o_write, o_amo = MagicMemoryFL.read, MagicMemoryFL.write, MagicMemoryFL.amo
@@ -194,14 +259,24 @@ def simulate(I, impl, ptypes, reqs, init, tm, window):
   obs = []
   try:
     if impl == 'CL':
+      drv = tm.get('drivers') or ['fresh'] * nports
       class TH(pm.Component):
         def construct(s):
-          s.srcs = [I.TestSrcCL(T[i][0], msgs[i], tm['src_init'][i], tm['src_intv'][i]) for i in range(nports)]
           s.mem = I.CL(nports, list(T), tm['stall'], tm['latency'])
-          s.sinks = [I.TestSinkCL(T[i][1], [None] * (len(msgs[i]) + 4), tm['sink_init'][i], tm['sink_intv'][i], cmp_fn=rec(i)) for i in range(nports)]
+          s.srcs, s.sinks, s.masters = [], [], []
           for i in range(nports):
-            pm.connect(s.srcs[i].send, s.mem.ifc[i].req)
-            pm.connect(s.mem.ifc[i].resp, s.sinks[i].recv)
+            if drv[i] == 'rtl':
+              m = I.RtlMaster(T[i][0], T[i][1], msgs[i], tm['src_init'][i], tm['src_intv'][i], tm['sink_init'][i], tm['sink_intv'][i],
+                              (lambda msg, i=i: out[i].append(fields(msg))))
+              setattr(s, f'master{i}', m); s.masters.append(m)
+              pm.connect(m.mem, s.mem.ifc[i])                     # stdlib RTL<->CL adapters are inserted by connect
+            else:
+              Src = I.ReuseSrcCL if drv[i] == 'reuse' else I.TestSrcCL
+              src = Src(T[i][0], msgs[i], tm['src_init'][i], tm['src_intv'][i])
+              snk = I.TestSinkCL(T[i][1], [None] * (len(msgs[i]) + 4), tm['sink_init'][i], tm['sink_intv'][i], cmp_fn=rec(i))
+              setattr(s, f'src{i}', src); setattr(s, f'sink{i}', snk)
+              pm.connect(src.send, s.mem.ifc[i].req)
+              pm.connect(s.mem.ifc[i].resp, snk.recv)
       th = TH()
     else:
       real_random = I.smm.Random
@@ -334,8 +409,13 @@ def gen_timing(rng, impl, nports, latency=None, stall=None):
   dl = lambda hi: [rng.choice([0, 0, 0, 1, 2, rng.randrange(0, hi)]) for _ in range(nports)]
   if latency is None: latency = rng.choice([0, 1, 2, 3, 4, 5]) if impl == 'CL' else rng.choice([0, 1, 2, 3, 4])
   if stall is None: stall = rng.choice([0, 0.3, 0.7])
-  return {'latency': latency, 'stall': stall, 'seed': rng.getrandbits(30),
-          'src_init': dl(6), 'src_intv': dl(5), 'sink_init': dl(8), 'sink_intv': dl(6)}
+  tm = {'latency': latency, 'stall': stall, 'seed': rng.getrandbits(30),
+        'src_init': dl(6), 'src_intv': dl(5), 'sink_init': dl(8), 'sink_intv': dl(6)}
+  if impl == 'CL':
+    # who drives each port: TestSrcCL (a fresh object per request), a CL source rewriting ONE object in place,
+    # or an RTL en/rdy master behind the stdlib adapters (the request is a live signal)
+    tm['drivers'] = [rng.choice(['fresh', 'fresh', 'reuse', 'reuse', 'rtl', 'rtl']) for _ in range(nports)]
+  return tm
 
 def nontrivial(h):
   """some read/AMO observes a byte an EARLIER serviced request of the log wrote, or two ports touch one byte"""
@@ -553,7 +633,7 @@ def replay(ctx, r):
 def main(ctx):
   ctx.trusted += ['harness/c18.py instrumentation: MagicMemoryFL.read/write/amo wrapped at class level; the servicing port is the '
                   'loop variable `i` of up_mem read from the caller frame (a refactor that renames it makes the harness fail closed)',
-                  'pymtl3 simulation kernel (DefaultPassGroup), TestSrcCL/TestSinkCL/SourceRTL/SinkRTL test drivers, bitstruct field packing of MemMsg']
+                  'pymtl3 simulation kernel (DefaultPassGroup), TestSrcCL/TestSinkCL/SourceRTL/SinkRTL test drivers, the harness\'s own requesters (ReuseSrcCL: one request object rewritten in place; RtlMaster: en/rdy RTL master behind the stdlib RTL<->CL adapters), bitstruct field packing of MemMsg']
   ctx.assumptions += [
     'memory model is unbounded Z -> byte; generated addresses stay inside the bytearray (IndexError behaviour at the end of memory is outside C18)',
     'AMOs in the random streams use the full data width (len field 0) — sub-word AMOs are probed separately (keys C18:subword-amo:CL / C18:subword-amo:RTL)',
